@@ -63,7 +63,25 @@ def wrap(r, n, outer_from, direction, inner, shape):
     elif shape == "nested":
         # the inner message is itself a carbon wrapper (from the own account) around a second-level message
         lvl2 = "<message xmlns='jabber:client' from='carol@example.com/x' to='%s' id='inner2-%d' type='chat'><body>inner2-body-%d</body></message>" % (OWN, n, n)
-        core_inner = inner.replace("</message>", "<received xmlns='%s'><forwarded xmlns='%s'>%s</forwarded></received></message>" % (NS_C, NS_F, lvl2))
+        # (either direction, directly under the inner message or buried in an application extension of it)
+        nd = r.choice(["sent", "received"])
+        nested = "<%s xmlns='%s'><forwarded xmlns='%s'>%s</forwarded></%s>" % (nd, NS_C, NS_F, lvl2, nd)
+        if r.random() < 0.4:
+            nested = "<container xmlns='urn:example:container'><deeper>%s</deeper></container>" % nested
+        core_inner = inner.replace("</message>", nested + "</message>")
+    elif shape == "buried-wrapper":
+        # no carbon at all: a wrapper buried in the payload of another kind of stanza (a MAM result, an application extension) that the
+        # own account or anyone else sends; a contact can put such XML into any message it writes
+        nd = r.choice(["sent", "received"])
+        w_ = "<%s xmlns='%s'><forwarded xmlns='%s'>%s</forwarded></%s>" % (nd, NS_C, NS_F, inner, nd)
+        host = r.choice(["mam", "ext", "forwarded"])
+        if host == "mam":
+            payload = "<result xmlns='urn:xmpp:mam:2' queryid='q1' id='arch-%d'><forwarded xmlns='%s'><message xmlns='jabber:client' from='bob@example.org/phone' to='%s' type='chat'><body>archived-%d</body>%s</message></forwarded></result>" % (n, NS_F, OWN, n, w_)
+        elif host == "ext":
+            payload = "<body>outer-body-%d</body><container xmlns='urn:example:container'>%s</container>" % (n, w_)
+        else:
+            payload = "<forwarded xmlns='%s'><message xmlns='jabber:client' from='bob@example.org/phone' to='%s' type='chat'><body>fwd-%d</body>%s</message></forwarded>" % (NS_F, OWN, n, w_)
+        return "<message%s to='%s' id='outer-%d' type='chat'>%s</message>" % (fa, wire.JID, n, payload), inner
     elif shape == "two-wrappers":
         post = "<%s xmlns='%s'><forwarded xmlns='%s'>%s</forwarded></%s>" % (direction, NS_C, NS_F, inner.replace("inner-%d" % n, "innerB-%d" % n).replace("inner-body-%d" % n, "innerB-body-%d" % n), direction)
     x = "<message%s to='%s' id='outer-%d' type='chat'>%s<%s xmlns='%s'><forwarded xmlns='%s'>%s</forwarded></%s>%s</message>" % (
@@ -71,7 +89,7 @@ def wrap(r, n, outer_from, direction, inner, shape):
     return x, core_inner
 
 
-SHAPES = ["plain"] * 6 + ["extra-before", "extra-after", "wrong-carbons-ns", "wrong-forward-ns", "forwarded-without-message", "nested", "two-wrappers"]
+SHAPES = ["plain"] * 6 + ["extra-before", "extra-after", "wrong-carbons-ns", "wrong-forward-ns", "forwarded-without-message", "nested", "nested", "buried-wrapper", "buried-wrapper", "two-wrappers"]
 
 
 def worker(args):
@@ -150,9 +168,9 @@ def worker(args):
             if deeper:
                 viol.append(("unwrapped-twice %s" % gen, "a carbon nested inside a carbon was unwrapped and presented as a conversation message", w))
             should_unwrap = verdict == "accept" and shape in ("plain", "extra-before", "extra-after", "nested", "two-wrappers")
-            if verdict == "reject" or (verdict == "accept" and shape in ("wrong-carbons-ns", "wrong-forward-ns", "forwarded-without-message")):
+            if verdict == "reject" or shape == "buried-wrapper" or (verdict == "accept" and shape in ("wrong-carbons-ns", "wrong-forward-ns", "forwarded-without-message")):
                 if unwrapped:
-                    why = "sender " + cls if verdict == "reject" else "shape " + shape
+                    why = "sender " + cls if verdict == "reject" and shape != "buried-wrapper" else "shape " + shape
                     viol.append(("forged-carbon-unwrapped %s %s" % (why, gen), "the inner message of a carbon wrapper was presented although %s" % (
                         "the outer stanza does not come from the user's own bare address (%s)" % cls if verdict == "reject" else "the wrapper is not a valid carbon (%s)" % shape), w))
                 else:
@@ -202,8 +220,8 @@ def main(tier, replay=None):
         stats.update(st)
     cov = {"evaluations": stats["injected"], "distinct_nontrivial": stats["rejected_ok"] + stats["accepted_ok"],
            "rule": "carbon wrappers injected by a fake server into a real connected client with QXmppCarbonManagerV2 or QXmppCarbonManager: %d outer sender classes (own bare = accept; own full JIDs, look-alike domains, prefix/suffix, resource tricks, "
-                   "contacts, server = reject; case variants, empty and absent from = not judged) x sent/received x random inner messages built from the fixture extension pool x 8 wrapper shapes (extra payloads, wrong namespaces, "
-                   "forwarded without message, nested, two wrappers); every message object the application sees is recorded (messageReceived, V1 messageSent/messageReceived); unique ids/bodies tie presentations to wrappers" % len(SENDERS),
+                   "contacts, server = reject; case variants, empty and absent from = not judged) x sent/received x random inner messages built from the fixture extension pool x 9 wrapper shapes (extra payloads, wrong namespaces, "
+                   "forwarded without message, a second wrapper of either direction nested in the inner message or buried in an extension of it, a wrapper buried in a MAM result / forwarded message / application extension of a stanza that is no carbon, two wrappers); every message object the application sees is recorded (messageReceived, V1 messageSent/messageReceived); unique ids/bodies tie presentations to wrappers" % len(SENDERS),
            "observed": dict(stats), "samples": [{"outer_from": "alice@evil-example.org", "expected": "not unwrapped"}]}
     floors = {"rejected_ok": stats["rejected_ok"] > 100, "accepted_ok": stats["accepted_ok"] > 100}
     V.finish(cov, "exploration", ["case variants of the own JID and stanzas without from are not judged (the statement leaves them open)", "loopback TCP; messages presented later than the settle window would be missed"], floors)
